@@ -62,8 +62,9 @@ def replace_kind(program, old, new, counter):
         if node.get("op") == "action" and node["kind"] == old:
             node["kind"] = new
             counter[0] += 1
-        if "body" in node:
-            node["body"] = replace_kind(node["body"], old, new, counter)
+        for part in ("body", "handler", "final"):
+            if node.get(part):
+                node[part] = replace_kind(node[part], old, new, counter)
         out.append(node)
     return out
 
